@@ -115,6 +115,14 @@ class AbsV:
         return AbsV(self.term, self.parent, self.kind)
 
 
+class AbsSeq:
+    """abstract immutable sequence: only its length (an Int term >= 0) is known; elements are opaque"""
+    __slots__ = ("n",)
+
+    def __init__(self, n):
+        self.n = n
+
+
 class FuncV:
     """Closure over a lambda / nested def of the real source."""
     __slots__ = ("node", "env", "name", "module")
